@@ -2,6 +2,7 @@
 import NB.Wire
 import NB.Model.Mul
 import NB.Model.AsmParams
+import NB.Model.ScalarD
 namespace NB.Drv.C02
 open NB NB.Mul NB.Wire
 
@@ -21,6 +22,14 @@ def showSome {α} (f : α → String) : Except Panic α → String
 
 def handle (op : String) (args : List String) : Option (String × String) :=
   match op, args with
+  -- scalar forms: `BigUint *= u64/u128` (`scalar_mul` for one digit: 0 / 1 / power of two / general; `mul3` with
+  -- the `[lo, hi]` operand for a two-digit u128, WITHOUT a zero test on the receiver) — the digit-level leaf of C10D
+  | "u.mul_u64", [a, sc] => do
+    let a ← parseLimbs a; let sc ← parseNat sc
+    pure (su (NB.SD.dMulAssign .u64 P a sc), su (.ok (ofNat (val a * sc))))
+  | "u.mul_u128", [a, sc] => do
+    let a ← parseLimbs a; let sc ← parseNat sc
+    pure (su (NB.SD.dMulAssign .u128 P a sc), su (.ok (ofNat (val a * sc))))
   | "u.mul", [a, b] => do
     let a ← parseLimbs a; let b ← parseLimbs b
     pure (su (mulRef P a b), su (.ok (ofNat (val a * val b))))
